@@ -162,11 +162,8 @@ pub fn enabled_events(ex: &Exec) -> Vec<EvId> {
 fn perform(ev: EvId) {
     match ev {
         EvId::Subscribe(p) => {
-            let w = world();
-            // take the closure out while calling so nested registrations can borrow the world
-            let f = w.borrow_mut().subscribe.take().expect("world has no subscribe");
+            let f = world().borrow().subscribe.clone().expect("world has no subscribe");
             f(p);
-            w.borrow_mut().subscribe = Some(f);
         },
         EvId::ProbePull(p) => probe_driver(p).expect("probe").act(opt::PULL),
         EvId::ProbeTerm(p) => probe_driver(p).expect("probe").act(opt::TERM),
